@@ -149,11 +149,16 @@ Definition MAX_METRIC : Z := (2 ^ (Z.of_nat vit_metric_bits - 1) - 1) / vit_max_
 Definition vit_init (sc : scratch) : scratch :=
   {| sc_hist := sc_hist sc; sc_prev := upd (repeat MAX_METRIC NumStates) 0 0; sc_curr := sc_curr sc |}.
 
+(** the members the constructor computes once (cost_, nextState_, prevState_) and llr_limit<LLR_>() *)
+Record tables := { t_cost : list (list Z); t_next : list (list nat); t_prev : list (list nat); t_limit : Z }.
+Definition make_tables (W : nat) : tables :=
+  {| t_cost := makeCost W; t_next := makeNextState; t_prev := makePrevState; t_limit := llr_limit W |}.
+
 (* the state after the first [n] iterations of  for (i = 0; i != IN; i += 2, hindex += 1) *)
+Definition vit_forward_t (T : tables) (tb : tiebreak) (sc : scratch) (r : list Z) (n : nat) : scratch :=
+  fold_left (fun st t => vit_step tb (t_cost T) (t_next T) st t (nth (2 * t) r 0) (nth (2 * t + 1) r 0)) (seq 0 n) (vit_init sc).
 Definition vit_forward (tb : tiebreak) (W : nat) (sc : scratch) (r : list Z) (n : nat) : scratch :=
-  let cost := makeCost W in
-  let ns := makeNextState in
-  fold_left (fun st t => vit_step tb cost ns st t (nth (2 * t) r 0) (nth (2 * t + 1) r 0)) (seq 0 n) (vit_init sc).
+  vit_forward_t (make_tables W) tb sc r n.
 
 (* min_element = 0; min_cost = prevMetrics[0]; for i: if (prevMetrics[i] < min_cost) {min_cost = ..; min_element = i;} *)
 Definition scan_min (tb : tiebreak) (prev : list Z) : nat * Z :=
@@ -182,13 +187,17 @@ Fixpoint chainback (fuel : nat) (hist : list N) (prevState : list (list nat)) (O
   end.
 
 (** * decode<IN, OUT>(in, out): returns ((out, cost), object state afterwards) *)
+Definition decode_t (T : tables) (tb : tiebreak) (IN OUT : nat) (sc : scratch) (out0 : list N) (r : list Z)
+    : (list N * Z) * scratch :=
+  let st := vit_forward_t T tb sc r (IN / 2) in
+  let me := scan_min tb (sc_prev st) in
+  let cost := round_div (snd me) (t_limit T) in
+  let out := chainback (IN / 2) (sc_hist st) (t_prev T) OUT OUT (IN / 2) (IN / 2) (fst me) out0 in
+  ((out, cost), st).
+
 Definition decode_gen (tb : tiebreak) (W IN OUT : nat) (sc : scratch) (out0 : list N) (r : list Z)
     : (list N * Z) * scratch :=
-  let st := vit_forward tb W sc r (IN / 2) in
-  let me := scan_min tb (sc_prev st) in
-  let cost := round_div (snd me) (llr_limit W) in
-  let out := chainback (IN / 2) (sc_hist st) makePrevState OUT OUT (IN / 2) (IN / 2) (fst me) out0 in
-  ((out, cost), st).
+  decode_t (make_tables W) tb IN OUT sc out0 r.
 
 Definition decode := decode_gen source_tiebreak.
 
